@@ -150,3 +150,26 @@ func runSpecialParity() {
 }
 
 var _ = mc.Guard
+
+// runConflictingLevelHint: Encoder_encode takes the error-correction level as an ARGUMENT; a hints map
+// that was prepared for the writer may carry an ERROR_CORRECTION entry as well. Every (argument
+// level, hinted level) pair, typed and as a string, for versions 1, 7 and 27: the matrix is the
+// symbol of the argument's level.
+func runConflictingLevelHint() {
+	var cases []mxCase
+	for _, v := range []int{1, 7, 27} {
+		for _, lv := range levels {
+			for _, h := range []string{"L", "M", "Q", "H", "sL", "sM", "sQ", "sH"} {
+				for _, fam := range []int{famNumeric, famByteECI} {
+					cases = append(cases, mxCase{Kind: "encode", V: v, Level: lv.name, Mask: (v + len(h)) % 8, Family: famNames[fam], Len: capOf(fam, v, qr.H) / 2, Pat: 1, ECHint: h})
+				}
+			}
+		}
+	}
+	chk.Range("Encoder_encode with a hints map that also carries ERROR_CORRECTION (typed and string, every (argument, hint) level pair) x versions {1,7,27} x {numeric, byte+ECI}: the matrix is the symbol of the ARGUMENT's level", len(cases),
+		func(i int) string { return caseID(cases[i]) },
+		func(l *mc.Local, i int) {
+			cls, w := runMatrixCase(l, cases[i])
+			report(l, cls, w, cases[i])
+		})
+}
